@@ -105,3 +105,6 @@ def song_envs(res):
         ['Artist = "a"', "Player2 = bass", r, 'MusicStream = "Resolution = 5.ogg"', 'Genre = "Resolution"', 'Year = ", Resolution = 9"'],
         ['MediaType = "Resolution = \\"%d\\""' % other, 'Name = "x = y = Resolution = %d"' % other, r, "Offset = 0"],
     )
+
+# text that looks like the start of a remark in other formats: inside a quoted value it is data
+COMMENT_TRAPS = ("Alice // Bob", "a //", "a // b // c", "http://x.org/y // z", "x /* y */ z", "a # b", "a #", "a ; b", "a -- b", "a \\ b", "say \"hi\" // really", "a <!-- b -->", "x // \"y\"", "1 // 2", "a\t// b", "a ' b", "a ` b")
